@@ -288,3 +288,125 @@ def register(Rg: Registry):
     Rg.add(f"{VO}:VolMCObject._get_volume", prop="C14", trusted=True, returns="real",
            modifies=["self.cache_volume", "self.cache_volume_n_samples"],
            ensures=[("is-the-measure-of-the-denoted-set", lambda E, v, o: z3.And(R(v["result"]) == MU(v["self"].fields["sdf"].z), R(v["result"]) >= 0))])
+
+    # ------------------------------------------------------------------ get_volume (dispatcher)
+    # The analytic worker is seen through an ASSUMED, deliberately empty contract ("returns some real"): what is proved
+    # about get_volume is the argument plumbing only (which level reaches the worker, that its value is passed through).
+    def worker_result(S, fr):
+        r = S.real("worker_volume")
+        S.eng.spec_extra.setdefault("worker_results", []).append(r)
+        return r
+
+    Rg.add(f"{VOL}:_get_volume_frustum_cone", prop="C14", trusted=True, returns=worker_result, ensures=[])
+
+    LEVELS = {"low": 3, "middle": 5, "high": 8}
+
+    def gv_setup(acc, method="frustum_cone"):
+        def setup(S):
+            a = S.int("accuracy") if acc is int else acc
+            return dict(tree=sym_tree(S, "t"), method=method, accuracy=a)
+
+        return setup
+
+    def level_of(a):
+        return LEVELS.get(a) if isinstance(a, str) else a
+
+    def gv_dispatch(E, v, o):
+        calls = [vs for nm, vs in E.call_log if nm == "_get_volume_frustum_cone"]
+        rs = E.spec_extra.get("worker_results", [])
+        if len(calls) != 1 or len(rs) != 1 or calls[0]["tree"].uid != o["tree"].uid:
+            return False
+        lvl = level_of(o["accuracy"])
+        if lvl is None:
+            return False
+        return z3.And(to_z3(calls[0]["accuracy"], "int") == to_z3(lvl, "int"), R(v["result"]) == R(rs[0]))
+
+    def gv_level_ok(E, v, o):
+        lvl = level_of(o["accuracy"])
+        return False if lvl is None else z3.And(to_z3(lvl, "int") >= 1, to_z3(lvl, "int") <= 10)
+
+    def gv_bad_level(E, v, o):
+        a = v["accuracy"]
+        return False if isinstance(a, str) else z3.Or(to_z3(a, "int") <= 0, to_z3(a, "int") > 10)
+
+    Rg.add(f"{VOL}:get_volume", prop="C14",
+           variants={"int-level": gv_setup(int), "low": gv_setup("low"), "middle": gv_setup("middle"), "high": gv_setup("high"),
+                     "unknown-name": gv_setup("ultra"), "unknown-method": gv_setup(int, "voxel")},
+           raises={"AssertionError": ("only-for-a-level-outside-1-to-10", gv_bad_level),
+                   "KeyError": ("only-for-an-unknown-level-name", lambda E, v, o: isinstance(v["accuracy"], str) and v["accuracy"] not in LEVELS),
+                   "ValueError": ("only-for-an-unknown-method", lambda E, v, o: v["method"] != "frustum_cone")},
+           ensures=[("names-map-to-3-5-8-and-one-call-of-the-worker-with-that-level-and-tree-whose-value-is-returned", gv_dispatch),
+                    ("accepted-level-is-1-to-10", gv_level_ok),
+                    ("method-is-frustum-cone", lambda E, v, o: o["method"] == "frustum_cone")],
+           notes="level names are concrete strings (variants); integer level symbolic")
+
+
+# ===========================================================================
+# Union lemma (pure real arithmetic over the spec functions; obligations C14/lemma/...)
+def lemmas():
+    """One compartment laid on the z-axis: parent sphere (radius rp) at z = 0, child sphere (rc) at z = d, frustum between.
+    Squared profiles at height z: sp = rp^2 - z^2, sc = rc^2 - (d - z)^2 (a negative value = the sphere does not reach z),
+    fr = (rp + (rc - rp) z / d)^2 on [0, d].  Volumes of solids of revolution are pi * integral of the squared profile, written
+    with the antiderivatives F (sphere) and G (frustum) of C13.  Together the lemmas say: under d >= rp, d >= rc the union's
+    profile max(sp+, fr, sc+) on [0, d] is  sp on [0, mp], fr on [mp, d - mc], sc on [d - mc, d]  (mp, mc the split points of
+    V_sf at the two ends), its integral is V_fr + (hemisphere_p - V_sf_p) + (hemisphere_c - V_sf_c), outside [0, d] only the own
+    end sphere is present; hence per edge  V_fr - V_sf_p - V_sf_c  and per node one full sphere — what `leave` adds at levels >= 3."""
+    out = []
+    rp, rc, d, z = z3.Reals("rp rc d z")
+    r1, r2, h = z3.Reals("r1 r2 h")
+    zmax = lambda x, y: z3.If(x >= y, x, y)
+    pos = lambda x: zmax(x, z3.RealVal(0))
+    fr = lambda t: (rp + (rc - rp) * t / d) * (rp + (rc - rp) * t / d)
+    sp = lambda t: rp * rp - t * t
+    sc = lambda t: rc * rc - (d - t) * (d - t)
+    hemi = lambda r: PI * (F(r, r) - F(r, 0))
+
+    # --- the split point used in V_sf is where the two profiles cross (justifies V_sf = pi * integral of min(rho_S, rho_F)^2)
+    f1 = lambda t: (r1 + (r2 - r1) * t / h) * (r1 + (r2 - r1) * t / h)
+    s1 = lambda t: r1 * r1 - t * t
+    m, top = sf_split(r1, r2, h), zmin(h, r1)
+    one = [r1 > 0, r2 > 0, h > 0]
+    out.append(("sf-split-point-lies-in-the-integration-range", one, z3.And(m >= 0, m <= top)))
+    out.append(("sf-frustum-profile-is-the-smaller-one-before-the-split-point", one + [z >= 0, z <= m], f1(z) <= s1(z)))
+    out.append(("sf-sphere-profile-is-the-smaller-one-after-the-split-point", one + [z >= m, z <= top, m < top], s1(z) <= f1(z)))
+    out.append(("sf-without-taper-is-the-spec-of-C13", one + [r2 >= r1], V_sf(r1, r2, h) == C13.V_sf_widening(r1, h)))
+
+    # --- sub-lemma: the lens of the two end spheres lies inside the frustum (holds for every spacing d > 0)
+    any_d = [rp > 0, rc > 0, d > 0, z >= 0, z <= d]
+    out.append(("lens-of-the-end-spheres-lies-inside-the-frustum", any_d, z3.Or(sp(z) <= fr(z), sc(z) <= fr(z))))
+    a, b, f = z3.Reals("a b f")
+    out.append(("max-of-profiles-decomposes-when-at-most-one-sphere-exceeds-the-frustum", [a >= 0, b >= 0, f >= 0, z3.Or(a <= f, b <= f)],
+                zmax(a, zmax(f, b)) == f + (a - zmin(a, f)) + (b - zmin(b, f))))
+
+    # --- the union's profile on one compartment, piece by piece
+    spaced = [rp > 0, rc > 0, d >= rp, d >= rc]
+    mp, mc = sf_split(rp, rc, d), sf_split(rc, rp, d)
+    mx = zmax(pos(sp(z)), zmax(fr(z), pos(sc(z))))
+    inside = spaced + [z >= 0, z <= d]
+    out.append(("union-breakpoints-are-ordered", spaced, z3.And(0 <= mp, mp <= d - mc, d - mc <= d)))
+    out.append(("union-profile-is-the-parent-sphere-up-to-its-split-point", inside + [z <= mp], mx == sp(z)))
+    out.append(("union-profile-is-the-frustum-between-the-split-points", inside + [z >= mp, z <= d - mc], mx == fr(z)))
+    out.append(("union-profile-is-the-child-sphere-after-its-split-point", inside + [z >= d - mc], mx == sc(z)))
+    out.append(("outside-the-compartment-only-the-own-end-sphere-is-present", spaced, z3.And(z3.Implies(z < 0, sc(z) < 0), z3.Implies(z > d, sp(z) < 0))))
+
+    # --- integral of the union's profile over [0, d] (by pieces, with the antiderivatives) = V_fr + free parts of the hemispheres
+    def pieces(ra, rb, dd):
+        ma, mb = sf_split(ra, rb, dd), sf_split(rb, ra, dd)
+        return PI * (F(ra, ma) - F(ra, 0)) + PI * (G(ra, rb, dd, dd - mb) - G(ra, rb, dd, ma)) + PI * (F(rb, mb) - F(rb, 0))
+
+    def edge(ra, rb, dd):
+        return V_fr(ra, rb, dd) - V_sf(ra, rb, dd) - V_sf(rb, ra, dd)
+
+    out.append(("union-integral-over-a-compartment-is-frustum-plus-free-hemisphere-parts", spaced,
+                pieces(rp, rc, d) == V_fr(rp, rc, d) + (hemi(rp) - V_sf(rp, rc, d)) + (hemi(rc) - V_sf(rc, rp, d))))
+    out.append(("hemisphere-is-half-the-sphere", [], 2 * hemi(rp) == V_sphere(rp)))
+    # two-node tree: outer hemisphere + compartment + outer hemisphere = what leave adds at levels >= 3 (leaf: sphere; parent: sphere + edge)
+    out.append(("two-node-capsule-is-the-sum-of-the-leave-increments", spaced,
+                hemi(rp) + pieces(rp, rc, d) + hemi(rc) == V_sphere(rc) + (V_sphere(rp) + edge(rp, rc, d))))
+    # three collinear nodes (chain 0-1-2, or a root 1 with arms 0 and 2 on opposite sides): compartments are adjacent intervals
+    ra, rb, rcc, dab, dbc = z3.Reals("ra rb rcc dab dbc")
+    chain = [ra > 0, rb > 0, rcc > 0, dab >= ra, dab >= rb, dbc >= rb, dbc >= rcc]
+    out.append(("three-collinear-nodes-union-is-the-sum-of-the-leave-increments", chain,
+                hemi(ra) + pieces(ra, rb, dab) + pieces(rb, rcc, dbc) + hemi(rcc)
+                == V_sphere(ra) + V_sphere(rb) + V_sphere(rcc) + edge(ra, rb, dab) + edge(rb, rcc, dbc)))
+    return out
